@@ -509,3 +509,33 @@ Theorem C03_tie_TPLSimple_cor :
 Proof. exact TPLSimple_cor_tie. Qed.
 Print Assumptions C03_tie_TPLSimple_cor.
 
+(* ------------------------------------------------------------------ scale equivariance *)
+(* multiplying len_scale and every lag by lam > 0 changes only the unit: correlation, the percentile curve (hence its
+   roots: percentile_scale scales with lam), len_rescaled and every closed-form integral scale (nu = the shape argument) *)
+Theorem C03_scale_equivariance :
+  forall ora (c : R -> R) lam lr len resc per r nu, 0 < lam -> lr <> 0 ->
+    correlation_of (OR ora) c (lam * lr) (lam * r) = correlation_of (OR ora) c lr r /\
+    percentile_curve (OR ora) (correlation_of (OR ora) c (lam * lr)) per (lam * r)
+      = percentile_curve (OR ora) (correlation_of (OR ora) c lr) per r /\
+    len_rescaled (OR ora) (lam * len) resc = lam * len_rescaled (OR ora) len resc /\
+    Formulas_gen.Gaussian_calc_integral_scale (OR ora) (lam * lr) = lam * Formulas_gen.Gaussian_calc_integral_scale (OR ora) lr /\
+    Formulas_gen.Exponential_calc_integral_scale (lam * lr) = lam * Formulas_gen.Exponential_calc_integral_scale lr /\
+    Formulas_gen.Stable_calc_integral_scale (OR ora) (lam * lr) nu = lam * Formulas_gen.Stable_calc_integral_scale (OR ora) lr nu /\
+    Formulas_gen.Matern_calc_integral_scale (OR ora) (lam * lr) nu = lam * Formulas_gen.Matern_calc_integral_scale (OR ora) lr nu /\
+    Formulas_gen.Integral_calc_integral_scale (OR ora) (lam * lr) nu = lam * Formulas_gen.Integral_calc_integral_scale (OR ora) lr nu /\
+    Formulas_gen.Rational_calc_integral_scale (OR ora) (lam * lr) nu = lam * Formulas_gen.Rational_calc_integral_scale (OR ora) lr nu.
+Proof. exact scale_equivariance. Qed.
+Print Assumptions C03_scale_equivariance.
+
+(* prescribing the integral scale, ANY class (calc = its integral scale as a function of len_scale, proportional or not):
+   the setter tries len = target / calc 1 and accepts it iff the resulting scale is within 1e-8 + 1e-3 |target| of the
+   prescribed one (np.isclose(rtol=1e-3)); otherwise it refuses (the documented ValueError) *)
+Theorem C03_integral_scale_setter_accepts_iff :
+  forall ora (calc : R -> R) target,
+    let len := target / calc 1 in
+    (set_integral_scale (OR ora) calc target = Some len /\
+       Rabs (calc len - target) <= 1 / 100000000 + 1 / 1000 * Rabs target) \/
+    (set_integral_scale (OR ora) calc target = None /\
+       1 / 100000000 + 1 / 1000 * Rabs target < Rabs (calc len - target)).
+Proof. exact integral_scale_setter_accepts_iff. Qed.
+Print Assumptions C03_integral_scale_setter_accepts_iff.
